@@ -441,6 +441,13 @@ func runOnce(cfg config, src *source, events, script SL) (res Result, retry bool
 					res = Result{Obs: L(I(-8)), Oracle: s.d.oracle[0], Tags: []string{"failed-before-desync"}, NonTrivial: true}
 					return
 				}
+				// the recorded trace no longer fits: let the real syncer run on, honestly served, and
+				// judge the property itself on the outcome; only if that holds is it a mere desync
+				if msg := s.freeRun(); msg != "" {
+					res = Result{Obs: L(I(-8)), Oracle: msg + " (honest free run after replay desync: " + de.msg + ")",
+						Tags: []string{"failed-after-desync"}, NonTrivial: true}
+					return
+				}
 				res = Result{Obs: L(I(-9)), Oracle: "harness shape error: replay desync: " + de.msg}
 				retry = true
 				return
@@ -498,6 +505,43 @@ func runOnce(cfg config, src *source, events, script SL) (res Result, retry bool
 	}
 	return Result{Obs: L(d.digests, d.saves, s.final), Oracle: oracle, Tags: tags,
 		NonTrivial: len(script) >= 4 && (d.tags["acc-accepted"] || d.tags["sto-accepted"])}, false
+}
+
+// freeRun serves every outstanding request honestly until the snap phase is over, completes the
+// sync and returns the first direct oracle failure ("" if the property holds on this run).
+func (s *session) freeRun() (msg string) {
+	defer func() {
+		if e := recover(); e != nil {
+			if len(s.d.oracle) > 0 {
+				msg = s.d.oracle[0]
+			} else {
+				msg = ""
+			}
+		}
+	}()
+	d := s.d
+	if !d.running {
+		return ""
+	}
+	d.settle()
+	for steps := 0; steps < 3000 && !s.snapDone(); steps++ {
+		if len(d.out) == 0 {
+			return ""
+		}
+		q := d.out[0]
+		d.apply(desc{kind: q.Kind, num: d.num[q.ID], beh: behHonest, p1: 1000})
+		if len(d.oracle) > 0 {
+			return d.oracle[0]
+		}
+	}
+	if !s.snapDone() {
+		return ""
+	}
+	s.finish(6)
+	if len(d.oracle) > 0 {
+		return d.oracle[0]
+	}
+	return ""
 }
 
 func trunc(s string) string {
